@@ -21,6 +21,36 @@ def inject(r, f):
         kind, f.get('node') or f.get('msg') or '')))
     if kind == 'evict':
         w.evict_caches(_node(r, f['node']) if f.get('node') else None)
+    elif kind == 'redefine':
+        # the definition of the root workflow is replaced while the run is
+        # under way (the execution keeps the specification it started with)
+        m = world.M
+        from mistralsim import observe
+        if m.db_base.tx_lock.locked() or not observe.quick_states()[0]:
+            # a transaction is open at this step, or the execution has not
+            # been created yet (it would legitimately start with the new
+            # definition): try again after the next step
+            f2 = dict(f, at_step=sim.step + 1)
+            r.pending_faults.insert(0, f2)
+            return
+        import copy
+        from mistralsim import gen
+        prog = r.case.get('prog') or {}
+        if prog.get('workbook') or not prog.get('workflows'):
+            return
+        main = copy.deepcopy(prog['workflows'][0])
+        main['output'] = {'redefined': ['const', 1]}
+        main.pop('output_on_error', None)
+        text = gen.render_program({'workflows': [main],
+                                   'workbook': None})['workflows'][0]
+        m.auth_ctx.set_ctx(world.user_ctx(r.case.get('project', 'proj-a')))
+        try:
+            m.wf_service.update_workflows(
+                text, namespace=(r.case.get('defs') or {}).get(
+                    'namespace', ''))
+            sim.count('fault:redefine')
+        finally:
+            m.auth_ctx.set_ctx(None)
     elif kind == 'crash':
         n = _node(r, f['node'])
         if n is not None and n.alive:
